@@ -222,4 +222,15 @@ Proof.
   rewrite El. exists t. split; [reflexivity|]. split; [exact Hkt|]. split; [apply lin_cfg_refl | exact Hnt].
 Qed.
 
+(* C03 for linear learning policies: the answer for a row is the answer of the freshly constructed policy
+   (lin_strip: the constructor's state; only the private generator copies, which LinGreedy / LinUCB never read, are kept)
+   trained on exactly the selected observations *)
+Theorem nn_row_from_scratch_linear (s : nbr) (c : lin) seed row orc p :
+  nbr_row N aeqb RG s (LLin c) seed row orc p = nbr_row N aeqb RG s (LLin (lin_strip c)) seed row orc p \/
+  (exists idx, neighborhood N s row orc = Some idx /\ idx = []).
+Proof.
+  unfold nbr_row. destruct (neighborhood N s row orc) as [[|i idx]|]; [right; eexists; eauto | | left; reflexivity].
+  left. unfold lp_fit. rewrite (lin_fit_forgets N aeqb c). reflexivity.
+Qed.
+
 End Linear.
